@@ -35,6 +35,7 @@ L32 = 1 << 10
 
 import zlib
 from ..routes import reroute
+from ..forms import reform
 
 def r32(x):
     return rat(x, L32)
@@ -59,8 +60,9 @@ def line_event(case, di, si):
     u, st = DIRS[di], STARTS[si]
     end = (st[0] + L * u[0], st[1] + L * u[1])
     ev = {"k": "line", "case": case, "dir": di, "raised": False}
-    scan = LineScan(start=(float(st[0]), float(st[1])), end=(float(end[0]), float(end[1])), endpoint=case["endpoint"],
-                    **spec_kwargs(case["spec"]))
+    fk = zlib.crc32(json.dumps(case, sort_keys=True, default=str).encode()) // 7 + di       # argument forms (NumPy scalars, lists, arrays, 0-d arrays): same values
+    scan = LineScan(start=reform((float(st[0]), float(st[1])), fk), end=reform((float(end[0]), float(end[1])), fk + 1), endpoint=case["endpoint"],
+                    **{k: reform(v, fk + 2) for k, v in spec_kwargs(case["spec"]).items()})
     scan, ev["route"] = reroute(scan, zlib.crc32(json.dumps(case, sort_keys=True, default=str).encode()) + di + 2 * si)   # through a copy / deepcopy / pickle
     pos = scan.get_positions()
     md = scan.ensemble_axes_metadata
@@ -124,7 +126,9 @@ def assemble_blocks(scan, chunks, lazy):
     return full
 
 
-def grid_event(cx, cy, si, blocks=None):
+def grid_event(cx, cy, si, blocks=None, late=False):
+    """late: the scan is created from its corners and end-point flags only; gpts / sampling are assigned afterwards through the setters
+    (what matching a scan to a probe does)"""
     from abtem.scan import GridScan
     st = STARTS[si]
     Lx, Ly = Fraction(*cx["L"]), Fraction(*cy["L"])
@@ -136,8 +140,14 @@ def grid_event(cx, cy, si, blocks=None):
         kw["sampling"] = (float(Fraction(cx["spec"][1], cx["spec"][2])), float(Fraction(cy["spec"][1], cy["spec"][2])))
     else:
         return None, False
-    scan = GridScan(start=(float(st[0]), float(st[1])), end=(float(end[0]), float(end[1])),
-                    endpoint=(cx["endpoint"], cy["endpoint"]), **kw)
+    fk = zlib.crc32(json.dumps([cx, cy], sort_keys=True, default=str).encode()) // 7
+    if late:
+        scan = GridScan(start=(float(st[0]), float(st[1])), end=(float(end[0]), float(end[1])), endpoint=(cx["endpoint"], cy["endpoint"]))
+        for k, v in kw.items():
+            setattr(scan, k, v)
+    else:
+        scan = GridScan(start=reform((float(st[0]), float(st[1])), fk), end=reform((float(end[0]), float(end[1])), fk + 1),
+                        endpoint=(cx["endpoint"], cy["endpoint"]), **{k: reform(v, fk + 2) for k, v in kw.items()})
     scan, _route = reroute(scan, zlib.crc32(json.dumps([cx, cy], sort_keys=True, default=str).encode()))
     pos = scan.get_positions() if blocks is None else assemble_blocks(scan, blocks[0], blocks[1])
     md = scan.ensemble_axes_metadata
@@ -150,7 +160,7 @@ def grid_event(cx, cy, si, blocks=None):
           "shape": [int(s) for s in scan.shape], "sampling": [r32(s) for s in scan.sampling],
           "axes": [[r32(v) for v in xs], [r32(v) for v in ys]], "product_ok": product_ok,
           "meta": [{"offset": r32(m.offset), "sampling": r32(m.sampling)} for m in md], "raised": False,
-          "blocks": None if blocks is None else [list(blocks[0]), blocks[1]]}
+          "blocks": None if blocks is None else [list(blocks[0]), blocks[1]], "late": bool(late)}
     return ev, ok
 
 
@@ -268,7 +278,10 @@ def run(ctx: Ctx):
     pairs = [(a, b) for a in grids for b in grids if a["c"]["spec"][0] == b["c"]["spec"][0]]
     rng.shuffle(pairs)
     for j, (a, b) in enumerate(pairs[: (500 if quick else 12000)]):
-        ev, ok = grid_event(a["c"], b["c"], j % 3)
+        try:
+            ev, ok = grid_event(a["c"], b["c"], j % 3, late=(j % 4 == 1))
+        except AttributeError:          # assigning after construction is not offered by this version of the API
+            ev, ok = grid_event(a["c"], b["c"], j % 3)
         if ev is None:
             continue
         if not ok:
@@ -284,7 +297,7 @@ def run(ctx: Ctx):
         if j % 3 == 0 and ev["gpts"][0] * ev["gpts"][1] > 1:
             ch = (rng.choice([1, 2, 3]), rng.choice([1, 2, 3]))
             for lazy in (True, False):
-                evb, okb = grid_event(a["c"], b["c"], j % 3, blocks=(ch, lazy))
+                evb, okb = grid_event(a["c"], b["c"], j % 3, blocks=(ch, lazy), late=(j % 12 == 9))
                 if okb:
                     evs.append(evb)
                     ctx.case(("grid-blocks", json.dumps([a["c"], b["c"]]), ch, lazy))
@@ -329,7 +342,7 @@ def replay(ctx: Ctx, case):
         new, _ = line_event(ev["case"], ev["dir"], 0)
     elif ev["k"] == "grid":
         b = ev.get("blocks")
-        new, _ = grid_event(ev["case"][0], ev["case"][1], 0, blocks=None if not b else (tuple(b[0]), b[1]))
+        new, _ = grid_event(ev["case"][0], ev["case"][1], 0, blocks=None if not b else (tuple(b[0]), b[1]), late=bool(ev.get("late")))
     else:
         new = probe_event(ev["case"], rng)
     ctx.case("replay")
